@@ -7,6 +7,7 @@ package zzverif
 
 import (
 	"strconv"
+	"time"
 	"strings"
 )
 
@@ -371,6 +372,39 @@ func (g *G) genHostOverride(id string) *History {
 				Replies: []Reply{{Status: 200, BodyFail: -1, Body: "again", Hdr: Hdr{{"Date", dateAt(at, 0)}, {"Cache-Control", "max-age=600"}}}}})
 			at += sec
 		}
+	}
+	return h
+}
+
+// genZoneDates: valid HTTP-dates in the obsolete rfc850 and asctime layouts (recipients must accept all three
+// forms, RFC 9110 §5.6.7), with the cache's process in a zone of its own: explicit (Expires) and heuristic
+// (Last-Modified) freshness must not depend on where the process runs.
+func (g *G) genZoneDates(id string) *History {
+	h := &History{ID: id, Prop: g.prop, Class: "zone-dates", Backend: pick(g, "mem", "mem", "fs"), Logger: "discard",
+		TZ: pick(g, "Europe/Prague", "Africa/Lagos", "Europe/London", "Europe/Dublin", "America/New_York", "")}
+	url := "http://a.test/zd"
+	form := func(unix int64) string {
+		switch g.r.Intn(3) {
+		case 0:
+			return rfc850Date(unix)
+		case 1:
+			return time.Unix(unix, 0).UTC().Format(time.ANSIC)
+		}
+		return httpDate(unix)
+	}
+	// in summer too (Europe/London is on BST then)
+	base := pick(g, int64(0), 182*86400*sec)
+	at := base
+	for i := 0; i < 2+g.r.Intn(2); i++ {
+		hdr := Hdr{{"Date", dateAt(at, 0)}}
+		if g.chance(0.5) {
+			hdr = append(hdr, [2]string{"Expires", form(bubbleEpoch + at/sec + 3600)})
+		} else {
+			hdr = append(hdr, [2]string{"Last-Modified", form(bubbleEpoch + at/sec - 36000)})
+		}
+		h.Ops = append(h.Ops, Op{Op: "req", AtNs: at, Method: "GET", URL: url,
+			Replies: []Reply{{Status: pick(g, 200, 200, 404), BodyFail: -1, Body: "zd" + strconv.Itoa(i), Hdr: hdr}}})
+		at += pick(g, 10*sec, 60*sec, 600*sec)
 	}
 	return h
 }
